@@ -3,7 +3,7 @@
    Model: Model/C09.v.  `session mac_ok c ins` = everything one Transport does from the start of run()
    when fed the inputs `ins` (wire packets, and sends by other threads); `step` = one iteration of the run
    loop; `mac_ok` = the packetizer's MAC verification, constrained only by `mac_binds` (C02's premise). *)
-From PV Require Import Bytes C09 C09_proofs.
+From PV Require Import Bytes C09_gen C09 C09_proofs.
 Open Scope Z_scope.
 
 (* In every reachable state with strict kex agreed and the initial key exchange not finished, a packet
@@ -20,14 +20,29 @@ Theorem C09_strict_abort :
 Proof. exact strict_abort. Qed.
 Print Assumptions C09_strict_abort.
 
-(* ... and IGNORE, DEBUG, UNIMPLEMENTED, every unknown type -- anything but 20, 21, 30..34 -- is never
-   the next expected message while the initial key exchange runs (for every kex method, both roles) *)
+(* ... and a type outside the generated universe g_expect_universe (every type passed to _expect_packet
+   anywhere in paramiko, extracted from the source each run: currently 20, 21, 30..34 and the GSS 40, 41)
+   is never the next expected message while the initial key exchange runs, for every kex method and both
+   roles; the kex engines' tables kex_start / kex_next are the generated g_kex_start / g_kex_next.
+   C09_generated_tables below shows IGNORE, DEBUG, UNIMPLEMENTED, DISCONNECT, EXT_INFO, 192 are outside. *)
 Theorem C09_never_expected :
   forall mac_ok c ins st outs t,
     session mac_ok c ins = (Continue, st, outs) -> kdone st = false ->
     kexmsg t = false -> mem t (expected st) = false.
 Proof. exact never_expected. Qed.
 Print Assumptions C09_never_expected.
+
+(* what the model takes from Gen/C09_gen.v besides table lookups: run()'s early branches and the ones that
+   start with _enforce_strict_kex, the initial / post-activation expectations, and that the usual
+   suspects are not in the universe of expectable types, which lies within [KEXINIT, KEX_HI] *)
+Theorem C09_generated_tables :
+  g_early_types = [MSG_IGNORE; MSG_DISCONNECT; MSG_DEBUG] /\
+  g_enforce_sites = [MSG_IGNORE; MSG_DEBUG] /\
+  g_run_expect = [MSG_KEXINIT] /\ g_activate_expect = [MSG_NEWKEYS] /\
+  forallb (fun t => negb (kexmsg t)) [MSG_IGNORE; MSG_UNIMPLEMENTED; MSG_DEBUG; MSG_DISCONNECT; MSG_EXT_INFO; 192] = true /\
+  forallb (fun t => (MSG_KEXINIT <=? t) && (t <=? KEX_HI)) g_expect_universe = true.
+Proof. exact gen_shape. Qed.
+Print Assumptions C09_generated_tables.
 
 (* a KEXINIT carrying the peer's strict marker that is not the first packet received ends the
    connection; with MessageOrderError when it is the awaited KEXINIT (sequence numbers cannot be wrapped
